@@ -40,7 +40,7 @@ def parse_struct(text):
     n = int(head.group(1))
     rest = head.group(2)
     fields = []
-    for m in re.finditer(r'#\[(bits?)\((.*)\)\]\s*(\w+)\s*:\s*(.+?),\s*$', text, re.M):
+    for m in re.finditer(r'#\[(bits?)\((.*)\)\]\s*((?:r#)?\w+)\s*:\s*(.+?),\s*$', text, re.M):
         form, body, name, ty = m.group(1), m.group(2), m.group(3), m.group(4).strip()
         args = split_top(body)
         first = args[0]
